@@ -23,7 +23,7 @@ import (
 
 func init() {
 	register("C14", "exploration", checkC14)
-	workers["provider"] = func(args []string) { hx.ServeWorker(args[0], providerCall) }
+	workers["provider"] = func(args []string) { hx.ServeWorker(args[0], probed(providerCall, providerProbe)) }
 }
 
 type provCase struct {
